@@ -64,6 +64,9 @@ CLASSIFIER_SPEC = [
     ("2022-03-14", "date", False), ("1 - 1", "integer", True),
     # ... wherever the hyphen stands: before the reference / call as well as after it
     ("1 - today()", "date", True), ("7 - ${n}", "date", True), ("-1 * ${x}", "geopoint", True), ("0 - ${lat}", "geopoint", True), ("now() - 3600", "dateTime", True), ("3600 - now()", "dateTime", True),
+    # an instance() path is a function call whatever follows it - with no predicate, operator or reference at all
+    ("instance('fruits')/root/item/name", "text", True), ("instance('x')/root/item", "select_one", True), ("count(instance('x')/root/item)", "integer", True),
+    ("pulldata('f', 'a', 'b', 'c')", "text", True), ("once(uuid())", "text", True),
     # a positional predicate makes a path an expression (it is not literal text), as the classifier's contract says
     ("../q1[1]", "text", True), ("item[2]", "text", True), ("/data/r[position() = 1]/q", "text", True),
     # xsd:time / xsd:dateTime literals with fractional seconds and a zone offset are literals
